@@ -78,7 +78,7 @@ def from_errors(errs: list[Any]) -> list[dict[str, Any]]:
 
 def run_pty(argv: list[str], cwd: Path) -> tuple[int, str]:
     master, slave = pty.openpty()
-    env = {k: v for k, v in os.environ.items() if k not in ("NO_COLOR", "PYTHONPATH")}
+    env = {k: v for k, v in core.py_env().items() if k != "NO_COLOR"}
     p = subprocess.Popen([core.PY, "-m", "refurb", *argv], cwd=cwd, stdout=slave, stderr=subprocess.PIPE, env=env, close_fds=True)
     os.close(slave)
     chunks = []
